@@ -1,8 +1,3 @@
 SPECIFICATION TSpec
-CONSTANTS
-  Prefs = {"rsa", "p256", "p384"}
-  AgentPresent = TRUE
-  AsBuilt = {}
-  ServerCertifies = {"rsa", "p256", "p384", "ed25519"}
 INVARIANT Report
 CHECK_DEADLOCK FALSE
